@@ -223,7 +223,7 @@ class DataGet(IoContract):
     """first read decodes the held bytes under the type name they were loaded with and releases them; later reads
     return the stored value"""
     target = "auxdata.py::AuxData.data"
-    props = PROPS
+    props = PROPS + ("C01",)
     params = {"self": "ref:AuxData"}
     modifies = CELL_MOD
     result = "val"
@@ -264,7 +264,7 @@ class DataGet(IoContract):
 
 class DataSet(IoContract):
     target = "auxdata.py::AuxData.data.setter"
-    props = PROPS
+    props = PROPS + ("C01",)
     params = {"self": "ref:AuxData", "value": "val"}
     modifies = {"_data": lambda c0, a, r: r == a.self.t, "_lazy_container": lambda c0, a, r: r == a.self.t}
 
